@@ -368,3 +368,167 @@ func (p *prop) runFs(f []string) core.Outcome {
 	}
 	return o
 }
+
+// ---------------------------------------------------------------------------
+// file_server's own call script, fed back into the MODEL: the real file_server serves a request
+// to a spying writer that writes down every call it makes (header edits as differences of the
+// header map between calls, WriteHeader, Write, ReadFrom with its bytes). The recorded script
+// becomes an ordinary case line, so the real encode handler AND the Lean model both run exactly
+// what file_server does (precompressed Content-Encoding, ETag, Accept-Ranges, Content-Length,
+// 206/304/416, sendfile-style ReadFrom) — not just shapes the generator imagines.
+
+type spyWriter struct {
+	h    http.Header
+	last http.Header
+	ops  []string
+	bad  bool
+}
+
+func (s *spyWriter) Header() http.Header { return s.h }
+
+func (s *spyWriter) sync() {
+	keys := map[string]bool{}
+	for k := range s.h {
+		keys[k] = true
+	}
+	for k := range s.last {
+		keys[k] = true
+	}
+	var sorted []string
+	for k := range keys {
+		sorted = append(sorted, k)
+	}
+	sortStrings(sorted)
+	for _, k := range sorted {
+		nv, ov := s.h[k], s.last[k]
+		if strings.Join(nv, "\x00") == strings.Join(ov, "\x00") && len(nv) == len(ov) {
+			continue
+		}
+		if !canonicalName(k) {
+			s.bad = true
+			continue
+		}
+		if len(nv) == 0 {
+			s.ops = append(s.ops, "d"+k)
+			continue
+		}
+		for i, v := range nv {
+			if !asciiOK(v) {
+				s.bad = true
+			}
+			if i == 0 {
+				s.ops = append(s.ops, "s"+k+"="+core.Hex(v))
+			} else {
+				s.ops = append(s.ops, "a"+k+"="+core.Hex(v))
+			}
+		}
+	}
+	s.last = s.h.Clone()
+}
+
+func (s *spyWriter) WriteHeader(code int) {
+	s.sync()
+	s.ops = append(s.ops, "h"+strconv.Itoa(code))
+}
+
+func (s *spyWriter) Write(p []byte) (int, error) {
+	s.sync()
+	s.ops = append(s.ops, "wx"+core.Hex(string(p)))
+	return len(p), nil
+}
+
+func (s *spyWriter) ReadFrom(r io.Reader) (int64, error) {
+	s.sync()
+	data, err := io.ReadAll(r)
+	if err != nil {
+		return int64(len(data)), err
+	}
+	// chunking the model can realise: the sniffing phase reads at most 512 bytes, later reads ≤ 32768
+	var chunks []string
+	rest := data
+	for i := 0; len(rest) > 0; i++ {
+		n := 32768
+		if i == 0 {
+			n = 512
+		}
+		if n > len(rest) {
+			n = len(rest)
+		}
+		chunks = append(chunks, "x"+core.Hex(string(rest[:n])))
+		rest = rest[n:]
+	}
+	s.ops = append(s.ops, "r"+strings.Join(chunks, "/"))
+	return int64(len(data)), nil
+}
+
+func sortStrings(xs []string) {
+	for i := 1; i < len(xs); i++ {
+		for j := i; j > 0 && xs[j] < xs[j-1]; j-- {
+			xs[j], xs[j-1] = xs[j-1], xs[j]
+		}
+	}
+}
+
+// recordFileServer runs the real file_server on one request and returns its call script.
+func (p *prop) recordFileServer(c *fsCase, w *fsWorld) (string, bool) {
+	_, fsrv, err := p.fsChain(c, w)
+	if err != nil {
+		return "", false
+	}
+	sw := &spyWriter{h: http.Header{}, last: http.Header{}}
+	req := (&kase{method: c.method, ae: c.ae, aeSet: c.aeSet}).request()
+	req.URL.Path = "/" + fsFiles[c.file]
+	if c.rng != "-" {
+		req.Header.Set("Range", "bytes="+c.rng)
+	}
+	req = caddyhttp.PrepareRequest(req, caddy.NewReplacer(), sw, nil)
+	notFound := caddyhttp.HandlerFunc(func(w http.ResponseWriter, _ *http.Request) error { w.WriteHeader(404); return nil })
+	func() {
+		defer func() {
+			if recover() != nil {
+				sw.bad = true
+			}
+		}()
+		if err := fsrv.ServeHTTP(sw, req, notFound); err != nil {
+			sw.bad = true
+		}
+	}()
+	sw.sync()
+	if sw.bad || len(sw.ops) == 0 {
+		return "", false
+	}
+	return strings.Join(sw.ops, ","), true
+}
+
+// fsScriptCases emits ordinary case lines whose script is what file_server really did.
+func (p *prop) fsScriptCases(g *genCase, n int, emit func(string)) {
+	w, err := p.fsSetup()
+	if err != nil {
+		return
+	}
+	for i := 0; i < n; i++ {
+		f := strings.Fields(g.fsCase())
+		c, ok := parseFsCase(f)
+		if !ok {
+			continue
+		}
+		script, ok := p.recordFileServer(c, w)
+		if !ok {
+			continue
+		}
+		ops, ok := parseScriptOnly(script)
+		if !ok {
+			continue
+		}
+		dct := "~"
+		if fp := firstPayload(ops); fp != nil {
+			dct = core.Hex(http.DetectContentType(fp))
+		}
+		method := "G"
+		if c.method == "HEAD" {
+			method = "H"
+		}
+		emit(fmt.Sprintf("%s %s %d d %s %s 0 ~ ~ %s %d %s", namesField(c.encs), namesField(c.prefer), c.min, method,
+			optField(c.aeSet, c.ae), dct, g.rng.Intn(2), script))
+	}
+}
